@@ -542,6 +542,20 @@ func checkC12(w *World, dg *DG, r *Reply) {
 			w.Probe("handle6.relay_depth>=2")
 		}
 	}
+	// what goes out (inside the Relay-Reply layers, if any) is the plugin chain's answer, not some other object
+	var last *Invocation
+	for _, inv := range dg.Invs {
+		if inv.V6 {
+			last = inv
+		}
+	}
+	if last != nil && !last.RespNil && last.OutSum != 0 && last.RT == "" {
+		if hashBytes(repInner.ToBytes()) != last.OutSum {
+			bad("answer-not-chain-result", "the message sent (inside %d Relay-Reply layers) is not the response the last handler (%s) returned", len(repLayers), last.Plugin)
+		} else {
+			w.Probe("wire6.answer_is_chain_result")
+		}
+	}
 	c := r.Cap
 	if !net.IP(c.DstIP).Equal(dg.Src.IP) || c.DstPort != dg.Src.Port {
 		bad("destination", "sent to [%s]:%d, the request came from [%s]:%d", net.IP(c.DstIP), c.DstPort, dg.Src.IP, dg.Src.Port)
